@@ -32,6 +32,7 @@ type Prop struct {
 	ID      string
 	N       uint64 // universe size: thorough runs [0,N)
 	Quick   int    // number of seed-chosen indices in the quick tier
+	QuickFixed uint64 // indices below it are part of every quick run (fixed grid); the seed-chosen subset comes on top
 	Build   string // worker build variant: "", "race", "cover"
 	Env     []string
 	Workers int
@@ -320,8 +321,14 @@ func check(propID, tier string, mode int, from, to uint64) int {
 				}
 			}
 		}
+		for i := uint64(0); i < p.QuickFixed && i < p.N; i++ {
+			if !seen[i] {
+				seen[i] = true
+				idx = append(idx, i)
+			}
+		}
 		r := rand.New(rand.NewPCG(seed, 1234567))
-		q := p.Quick
+		q := p.Quick + int(p.QuickFixed)
 		if uint64(q) > p.N {
 			q = int(p.N)
 		}
